@@ -105,9 +105,16 @@ Proof. vm_compute. split; reflexivity. Qed.
 
 (* 4a. the rollback on a non-duplicate error meets the TTL purge exactly like the rollback on
       DuplicateKeyError (2. above): the new image {a: {$foo: 1}, t: <expired>} is purged by the
-      unique check, whose query is then rejected (OperationFailure); the rollback re-creates
-      the old document at the END: order 1,2 -> 2,1.  Nothing was expired before the call.
-      This is why the second class of bit 2 is no longer restricted to DuplicateKeyError. *)
+      unique check, whose query is then rejected (OperationFailure); in the library the rollback
+      re-creates the old document at the END: order 1,2 -> 2,1.  Nothing was expired before the
+      call.  This is why the second class of bit 2 is no longer restricted to
+      DuplicateKeyError.
+      Since iter_documents answers EUnmodelled when the read fails after its expiry pass purged
+      documents (the library keeps the purge, the model's callers do not), the MODEL no longer
+      plays the library's rollback on this history: the unique check leaves the model, the
+      step answers EUnmodelled and keeps the new image (as in 4b), and bit 4 is raised next to
+      bit 2.  The history is still rejected by the guard through bit 2 alone (and by the
+      `modelled` premise of the history theorem). *)
 Definition ops_ttl_reorder_opfail : list op :=
   [ OInsertOne (VDoc [("_id", VInt 1); ("a", VInt 1)]);
     OInsertOne (VDoc [("_id", VInt 2); ("a", VInt 2)]);
@@ -117,13 +124,13 @@ Definition ops_ttl_reorder_opfail : list op :=
     OReplace (VDoc [("_id", VInt 1)])
              (VDoc [("a", VDoc [("$foo", VInt 1)]); ("t", VDate 0 None)]) false ].
 Example refuted_ttl_reorder_opfail :
-  verdict ops_ttl_reorder_opfail = (false, 0, 2) /\
+  verdict ops_ttl_reorder_opfail = (false, 0, 6) /\
   last_step ops_ttl_reorder_opfail =
-    Some (Err EOpFail,
+    Some (Err EUnmodelled,
           [(VInt 1, VDoc [("_id", VInt 1); ("a", VInt 1)]);
            (VInt 2, VDoc [("_id", VInt 2); ("a", VInt 2)])],
-          [(VInt 2, VDoc [("_id", VInt 2); ("a", VInt 2)]);
-           (VInt 1, VDoc [("_id", VInt 1); ("a", VInt 1)])]).
+          [(VInt 1, VDoc [("_id", VInt 1); ("a", VDoc [("$foo", VInt 1)]); ("t", VDate 0 None)]);
+           (VInt 2, VDoc [("_id", VInt 2); ("a", VInt 2)])]).
 Proof. vm_compute. split; reflexivity. Qed.
 
 (* 4b. artefact of the model, not of the library (present meaning of bit 4): the unique check
